@@ -3,7 +3,7 @@ from __future__ import annotations
 
 import ast
 from dataclasses import dataclass
-from typing import List, Optional
+from typing import Tuple, List, Optional
 
 from sa.model import Function, Repo, calls_in, const_str, dotted, norm, own_nodes
 
@@ -34,8 +34,49 @@ class Grouping:
         return f"all_tags={self.all_tags} key={self.key_fn} default={self.default_tag!r} canonical=max(tag_score)={self.chooses_max_score} score={hash(self.score_dump) if self.score_dump else None}"
 
 
+def _alpha_dump(f: ast.AST) -> str:
+    """ast.dump of a function body with parameter / local names replaced by their order of first appearance."""
+    from sa.match import clone
+
+    c = clone(f)
+    names: dict = {}
+    for a in c.args.posonlyargs + c.args.args + c.args.kwonlyargs:  # type: ignore[attr-defined]
+        names.setdefault(a.arg, f"v{len(names)}")
+        a.arg = names[a.arg]
+        a.annotation = None
+    stores = {n.id for n in ast.walk(c) if isinstance(n, ast.Name) and isinstance(n.ctx, ast.Store)}
+    for n in ast.walk(c):
+        if isinstance(n, ast.Name) and (n.id in names or n.id in stores):
+            names.setdefault(n.id, f"v{len(names)}")
+            n.id = names[n.id]
+    body = [s for s in c.body if not isinstance(s, (ast.Import, ast.ImportFrom)) and not (isinstance(s, ast.Expr) and isinstance(s.value, ast.Constant))]  # type: ignore[attr-defined]
+    return "|".join(ast.dump(s) for s in body)
+
+
+def _tags_or_default(e: ast.AST, consts: dict) -> Optional[Tuple[bool, Optional[str]]]:
+    """`<op>.tags or [D]` / `<op>.tags if <op>.tags else [D]` -> (all tags, D);  `<op>.tags[0] if <op>.tags else D` -> (first only, D)."""
+    def is_tags(x: ast.AST) -> bool:
+        return isinstance(x, ast.Attribute) and x.attr == "tags"
+
+    def dflt(x: ast.AST) -> Optional[str]:
+        if isinstance(x, (ast.List, ast.Tuple)) and len(x.elts) == 1:
+            x = x.elts[0]
+        return const_str(x) if const_str(x) is not None else consts.get(getattr(x, "id", ""), None)
+
+    if isinstance(e, ast.BoolOp) and isinstance(e.op, ast.Or) and len(e.values) == 2 and is_tags(e.values[0]) and isinstance(e.values[1], (ast.List, ast.Tuple)):
+        return True, dflt(e.values[1])
+    if isinstance(e, ast.IfExp) and is_tags(e.test) and is_tags(e.body) and isinstance(e.orelse, (ast.List, ast.Tuple)):
+        return True, dflt(e.orelse)
+    if isinstance(e, ast.IfExp) and is_tags(e.test) and isinstance(e.body, ast.Subscript) and is_tags(e.body.value):
+        return False, dflt(e.orelse)
+    return None
+
+
 def grouping_of(repo: Repo, fn: Function) -> Grouping:
+    from sa.match import Locals
+
     mod = fn.module
+    L = Locals(fn.node)
     consts = {}
     for st in mod.tree.body:
         if isinstance(st, ast.Assign) and isinstance(st.targets[0], ast.Name) and const_str(st.value) is not None:
@@ -43,31 +84,42 @@ def grouping_of(repo: Repo, fn: Function) -> Grouping:
     all_tags = False
     key_fn = None
     default_tag = None
+    seen_tag_expr = False
+    # a per-operation tag expression used outside a loop (first tag only)
     for n in own_nodes(fn.node):
-        # tags = op.tags or [DEFAULT]
-        if isinstance(n, ast.BoolOp) and isinstance(n.op, ast.Or) and norm(n.values[0]).endswith(".tags") and isinstance(n.values[-1], ast.List) and n.values[-1].elts:
-            e = n.values[-1].elts[0]
-            default_tag = const_str(e) if const_str(e) is not None else consts.get(getattr(e, "id", ""), None)
-        # tag = op.tags[0] if op.tags else "default"
-        if isinstance(n, ast.IfExp) and norm(n.body).endswith(".tags[0]"):
-            default_tag = const_str(n.orelse)
-            all_tags = False
-        if isinstance(n, ast.For) and isinstance(n.iter, ast.Name) and n.iter.id == "tags" and isinstance(n.target, ast.Name):
-            # `tags` must be exactly `<op>.tags or [<default>]` (no slicing / filtering)
-            tdefs = [a for a in own_nodes(fn.node) if isinstance(a, ast.Assign) and any(isinstance(t, ast.Name) and t.id == "tags" for t in a.targets)]
-            all_tags = bool(tdefs) and all(isinstance(a.value, ast.BoolOp) and isinstance(a.value.op, ast.Or) and norm(a.value.values[0]).endswith(".tags")
-                                           and isinstance(a.value.values[-1], ast.List) for a in tdefs)
+        if isinstance(n, ast.IfExp):
+            td = _tags_or_default(n, consts)
+            if td is not None and td[0] is False:
+                all_tags, default_tag, seen_tag_expr = False, td[1], True
+    for n in own_nodes(fn.node):
+        if isinstance(n, ast.For) and isinstance(n.target, ast.Name):
+            td = _tags_or_default(L.inline(n.iter), consts)
+            if td is None or td[0] is False:
+                continue
+            all_tags, default_tag, seen_tag_expr = True, td[1], True
             for c in calls_in(n):
                 d = dotted(c.func) or ""
-                if c.args and isinstance(c.args[0], ast.Name) and c.args[0].id == n.target.id and d.startswith("NameSanitizer."):
+                if c.args and isinstance(c.args[0], ast.Name) and L.root(c.args[0].id) == n.target.id and d.startswith("NameSanitizer."):
                     key_fn = d.split(".")[-1]
+    if key_fn is None:
+        # key function applied to a single tag variable (first-tag groupings)
+        for c in calls_in(fn.node):
+            d = dotted(c.func) or ""
+            if d.startswith("NameSanitizer.normalize") and c.args:
+                key_fn = d.split(".")[-1]
+    # canonical spelling: max(<candidates>, key=<score function>)
     score = None
-    for q, f in mod.functions.items():
-        if q == f"{fn.qualname}.<locals>.tag_score":
-            body = [s for s in f.node.body if not isinstance(s, (ast.Import, ast.ImportFrom))]  # type: ignore[attr-defined]
-            score = "|".join(ast.dump(s) for s in body)
-    chooses = any(isinstance(n, ast.Call) and dotted(n.func) == "max" and any(k.arg == "key" and norm(k.value) == "tag_score" for k in n.keywords)
-                  for n in own_nodes(fn.node))
+    chooses = False
+    nested = {f.name: f for q, f in mod.functions.items() if q.startswith(fn.qualname + ".<locals>.")}
+    for n in own_nodes(fn.node):
+        if isinstance(n, ast.Call) and dotted(n.func) == "max":
+            for k in n.keywords:
+                if k.arg == "key" and isinstance(k.value, ast.Name) and k.value.id in nested:
+                    chooses = True
+                    score = _alpha_dump(nested[k.value.id].node)
+                elif k.arg == "key" and isinstance(k.value, ast.Lambda):
+                    chooses = True
+                    score = ast.dump(k.value.body)
     return Grouping(all_tags, key_fn, default_tag, score, chooses)
 
 
@@ -78,7 +130,6 @@ def naming_of(fn: Function) -> List[str]:
         d = dotted(c.func) or ""
         if d in ("NameSanitizer.sanitize_class_name", "NameSanitizer.sanitize_module_name", "NameSanitizer.sanitize_tag_class_name",
                  "NameSanitizer.sanitize_tag_attr_name", "NameSanitizer.sanitize_filename") and c.args:
-            a = norm(c.args[0])
-            if "tag" in a.lower():
+            if not isinstance(c.args[0], ast.Attribute):  # a tag spelling held in a local / subscript, not e.g. `schema.name`
                 out.add(d.split(".")[-1])
     return sorted(out)
